@@ -1576,7 +1576,12 @@ class Interp:
             for c in o.cls.mro():
                 # an attribute the class's initialiser sets, but which the state this unit starts from does not have: the state model is
                 # behind the code (e.g. a new table), nothing can be concluded -- not an AttributeError of the real object
-                if any(f == name for f, _ in c.fields) or _init_sets(c, name):
+                iv = _init_sets(c, name)
+                if isinstance(iv, ast.Constant) and type(iv.value) in (int, bool):
+                    # a counter / flag the initialiser starts at a constant: after an arbitrary history it holds an arbitrary value of that type
+                    o.attrs[name] = self.ctx.fresh('int' if type(iv.value) is int else 'bool', f'attr_{name}')
+                    return o.attrs[name]
+                if any(f == name for f, _ in c.fields) or iv is not None:
                     raise Unsupported(f'attribute {name} is set by {c.name}.__init__ but is not part of the state this unit starts from')
             raise SymRaise('AttributeError', name)
         if isinstance(o, (PyFunc, Closure)) and name == '__name__':
@@ -1990,8 +1995,8 @@ def _init_sets(c, name):
             tg = n.targets if isinstance(n, ast.Assign) else [n.target] if isinstance(n, (ast.AnnAssign, ast.AugAssign)) else []
             for t in tg:
                 if isinstance(t, ast.Attribute) and t.attr == name and isinstance(t.value, ast.Name) and t.value.id == me:
-                    return True
-    return False
+                    return getattr(n, 'value', None) or ast.Name(id='?')
+    return None
 
 
 class _OpaqueStr:
